@@ -190,3 +190,29 @@ def standard(prop, tier, seed, items, rule, t0, kinds=None, allow_exhausted=Fals
     vs += list(extra_violations)
     cov = st.coverage(dict({'rule': rule, 'exhaustive': False}, **(extra_cov or {})))
     return common.finish(prop, tier, seed, 'model_checking', cov, vs, t0, list(ASSUME) + list(assumptions))
+
+
+def replay_generic(prop, path):
+    """Re-run the single case of a replay file under TLC and print the verdict (exit 1 if it still violates)."""
+    import json
+    with open(path) as f:
+        d = json.load(f)
+    x = d['detail']
+    if 'source' not in x:
+        print('replay file has no single program case: %s' % path)
+        return 2
+    it = runner.Item('replay', x['source'], x.get('args', []), w=x.get('w', 2), s=x.get('s', 500),
+                     unchecked=x.get('unchecked', False), opt=x.get('options') or {})
+    st = Stats()
+    run([it], st, max_level=20000, timeout=1200)
+    if it.skip or it.result is None:
+        print('replay inconclusive: %s' % (it.skip or 'out of fuel'))
+        return 2
+    r = it.result
+    print('class=%s machine=%s source=%s alarm=%r halted=%s fault=%s' % (r['cls'], r['status'], r['hst'], r['alarm'], r['halted'], r['fault']))
+    print('machine observable:', show(r['mobs']))
+    print('source  observable:', show(r['hobs'] or r['mobs']))
+    vs = violations(prop, [it], allow_exhausted=True)
+    for v in vs:
+        print('VIOLATION property=%s replay=%s  # %s' % (prop, path, v.what))
+    return 1 if vs else 0
